@@ -85,7 +85,9 @@ Special == IF Kind = "mod"
           \* the module directive written as a block, alone and with other statements
           <<Stmt("module", "block", "", <<Val("example.com/m", "", "")>>)>>,
           <<Stmt("module", "block", "mb", <<Val("example.com/m", "ml", "")>>), Line1("require", Req("example.com/a", "v1.0.0", FALSE, "", ""))>>}
-    ELSE {}
+    ELSE {\* directories whose names need quoting
+          <<Line1("go", Val("1.21", "", "")), Line1("use", Use("./my dir", "", "")), Line1("use", Use("./x", "", "xe"))>>,
+          <<Line1("go", Val("1.21", "", "")), Stmt("use", "block", "", <<Use("./x", "", ""), Use("./my dir", "ml", "")>>)>>}
 
 \* ------------------------------------------------------------ operation instances
 Pad4(a) == [i \in 1..4 |-> IF i <= Len(a) THEN a[i] ELSE ""]
@@ -122,7 +124,7 @@ WorkOps ==
        {Op("AddGoStmt", <<v>>) : v \in {"1.20", "1.x"}} \cup {Op("DropGoStmt", <<>>)}
   \cup {Op("AddToolchainStmt", <<"go1.21.0">>), Op("DropToolchainStmt", <<>>)}
   \cup {Op("AddGodebug", <<k, v>>) : k \in {"k1", "k2"}, v \in {"v1", "v3"}} \cup {Op("DropGodebug", <<k>>) : k \in {"k1", "k2"}}
-  \cup {Op("AddUse", <<p>>) : p \in {"./x", "./y", "./new", "./o'brien"}} \cup {Op("DropUse", <<p>>) : p \in {"./x", "./y"}}
+  \cup {Op("AddUse", <<p>>) : p \in {"./x", "./y", "./new", "./o'brien", "./my dir"}} \cup {Op("DropUse", <<p>>) : p \in {"./x", "./y"}}
   \cup {OpL("SetUse", l) : l \in {<<>>, <<"./x">>, <<"./y", "./x">>, <<"./new", "./x", "../z">>}}
   \cup {Op("AddReplace", <<p, ov, "example.com/new", "v1.2.0">>) : p \in {"example.com/a", "example.com/b"}, ov \in {"", "v1.0.0"}}
   \cup {Op("DropReplace", <<p, ov>>) : p \in {"example.com/a"}, ov \in {"", "v1.0.0"}}
